@@ -21,6 +21,8 @@ RICH = {"s": "text", "e": "", "t": True, "f": False, "z": None, "i": 1, "neg": -
 CLAUSES = [
     case([node_file({k: v for k, v in RICH.items() if k not in (1, True)})]),
     case([node_file({"m": {1: "one", "two": 2, None: "null key", False: "false key"}, "order": {"z": 1, "a": 2, "m": 3}})]),
+    case([node_file({"ik": {0: "a", -9223372036854775808: "b", 9223372036854775807: "c", 9223372036854775808: "d", 18446744073709551615: "e"},
+                     "l": [{18446744073709551615: "in list"}], "v": 18446744073709551615})]),
     # known finding D13: key collision under Python equality
     case([{"path": "nodes/n.yml", "content": {"parameters": G.M([["m", G.M([[G.I(1), "a"], [True, "b"], [G.I(0), "c"], ["k", "d"], [False, "e"]])]])}}]),
     # failures surface as ValueError
@@ -122,6 +124,12 @@ class C19(Prop):
                 yield c
             else:
                 layers = G.shaped_stack(r, r.range(2, 5), 1, r.range(1, 3), 0, p_stray=0)
+                # non-string keys of every kind and magnitude somewhere in the tree
+                if r.chance(1, 2) and layers[0]["m"]:
+                    e = r.choice(layers[0]["m"])
+                    ks = [G.key(r, p_odd=100) for _ in range(r.range(1, 3))]
+                    seen = set()
+                    e[1] = {"m": [[k, G.scalar(r)] for k in ks if not (repr(k) in seen or seen.add(repr(k)))]}
                 G.add_refs(r, layers, r.range(0, 3), p_cyclic=0, p_dangling=3)
                 params = layers[0]
                 yield {"op": "py_inventory", "config": {}, "files": [{"path": "nodes/n.yml", "content": {"parameters": params}}]}
